@@ -523,6 +523,10 @@ static bool process_line(AsmState *state, const char *line, AsmResult *result) {
             }
             state->patch_count = new_count;
 
+            /* Labels are local to a function: forget them, so that MAX_LABELS
+             * bounds one function and not the whole module */
+            state->label_count = 0;
+
             return true;
         }
 
